@@ -31,6 +31,10 @@ FONTS = {
     "A": {"name": "VerifA", "w": {32: 250, 65: 500, 66: 750, 67: 1000}, "descent": -250},
     "B": {"name": "VerifB", "w": {32: 500, 65: 1000, 66: 250, 67: 625}, "descent": -125},
     "C": {"name": "VerifC", "w": {32: 125, 65: 375, 66: 500, 67: 875}, "descent": -500},
+    # two distinct font dictionaries sharing one BaseFont/FontName: other widths, other encoding (family "samename")
+    "S1": {"name": "VerifS", "w": {32: 250, 65: 500, 66: 750, 67: 1000}, "descent": -250},
+    "S2": {"name": "VerifS", "w": {32: 500, 65: 1000, 66: 250, 67: 625}, "descent": -250,
+           "enc": {65: "B", 66: "C", 67: "A"}},
 }
 WIDTH_SETS = [
     {"A": "A", "B": "B", "C": "C"},
@@ -75,7 +79,7 @@ PAGE_RES = {"fonts": {"F1": "A", "F2": "B"}, "xobjects": ["FmA", "FmI", "FmN"]}
 
 def font_dict(key: str, wset: Dict[str, str]) -> Dict[str, Any]:
     f = FONTS[key]
-    w = FONTS[wset[key]]["w"]
+    w = FONTS[wset.get(key, key)]["w"]
     widths = [w.get(c, 0) for c in range(32, 68)]
     return {
         "Type": G.N("Font"), "Subtype": G.N("Type1"), "BaseFont": G.N(f["name"]), "FirstChar": 32, "LastChar": 67,
@@ -84,6 +88,8 @@ def font_dict(key: str, wset: Dict[str, str]) -> Dict[str, Any]:
             "Type": G.N("FontDescriptor"), "FontName": G.N(f["name"]), "Flags": 32, "FontBBox": [0, -500, 1000, 1000],
             "Ascent": 750, "Descent": f["descent"], "ItalicAngle": 0, "CapHeight": 700, "StemV": 80,
         },
+        **({"Encoding": {"Type": G.N("Encoding"), "BaseEncoding": G.N("WinAnsiEncoding"),
+                         "Differences": [x for c, ch in sorted(f["enc"].items()) for x in (c, G.N(ch))]}} if "enc" in f else {}),
     }
 
 
@@ -92,7 +98,7 @@ def make_doc_fn(wset_i: int):
 
     def make_doc(streams):
         d = G.Doc()
-        fref = {k: d.add(font_dict(k, wset)) for k in FONTS}
+        fref = {k: d.add(font_dict(k, wset)) for k in ("A", "B", "C")}
         xref: Dict[str, Any] = {}
         for name in ("FmA", "FmI", "FmN"):
             f = FORMS[name]
@@ -278,7 +284,8 @@ class TM:
         if g["font"] is None:
             return  # not generated at top level; reachable only under D_FORM
         font = FONTS[g["font"]]
-        widths = FONTS[WIDTH_SETS[self.wset][g["font"]]]["w"]
+        widths = FONTS[WIDTH_SETS[self.wset].get(g["font"], g["font"])]["w"]
+        enc = font.get("enc", {})
         Tfs, Th, Tc, Tw, rise = g["Tfs"], g["Th"], g["Tc"], g["Tw"], g["rise"]
         ctm = self.dctm if D_CTM in self.dev else g["ctm"]
         lazy = D_TC in self.dev
@@ -296,7 +303,7 @@ class TM:
                     box = [(0, d + rise), (adv, d + rise), (adv, d + rise + Tfs), (0, d + rise + Tfs)]
                     bb = gfx.bound([gfx.mat_pt(m, p) for p in box])
                     out.append({
-                        "text": chr(code), "font": font["name"], "matrix": m, "adv": adv, "bbox": bb,
+                        "text": enc.get(code, chr(code)), "font": font["name"], "matrix": m, "adv": adv, "bbox": bb,
                         "size": bb[3] - bb[1], "fill": (self.gcs, g["fill"][1]) if D_QCS in self.dev else g["fill"],
                     })
                     tx = w0 * Tfs * Th + (Tw * Th if code == 32 else 0)
@@ -345,7 +352,7 @@ def colour_events(m) -> list:
     space = m.gs["fill"][0]
     return COLOUR + [SC[space]] + ILL_COLOUR + [SC_ILL[space]]
 POSITION = [
-    ("Td", 7, -5), ("TD", 3, -14), ("Tm", 2, 0, 0, 2, 40, 80), ("Tm", Fr(1, 2), 1, -2, 4, 30, 20), ("T*",),  # 2nd: a, b, c, d pairwise distinct
+    ("Td", 7, -5), ("TD", 3, -14), ("Td", 0, 0), ("TD", 0, 0), ("Tm", 1, 0, 0, 1, 0, 0), ("Tm", 2, 0, 0, 2, 40, 80), ("Tm", Fr(1, 2), 1, -2, 4, 30, 20), ("T*",),  # 2nd: a, b, c, d pairwise distinct
 ]
 SHOW = [
     ("Tj", b"A"), ("Tj", b"A B"), ("TJ", (b"A", -250, b"B", b"C")), ("'", b"C"), ('"', 1, 4, b"B"),
@@ -396,21 +403,24 @@ ROOTS = {
 
 BOUNDS = {
     "quick": {"depth": {"page": 4, "text": 3, "cmtext": 2}, "shard_depth": 2, "split2_depth": 3, "split3_depth": 2,
-              "variants_deep": 1, "full_depth": 1, "wsets": [0, 1], "depth_wset1": 2},
+              "variants_deep": 1, "full_depth": 1, "wsets": [0, 1], "depth_wset1": 2, "same_single": 3, "same_pair": 2},
     "thorough": {"depth": {"page": 5, "text": 4, "cmtext": 3}, "shard_depth": 2, "split2_depth": 3, "split3_depth": 2,
-                 "variants_deep": 3, "full_depth": 2, "wsets": [0, 1], "depth_wset1": 3},
+                 "variants_deep": 3, "full_depth": 2, "wsets": [0, 1], "depth_wset1": 3, "same_single": 4, "same_pair": 3},
 }
 
 META = {
     "rule": (
         "breadth-first search over operator histories from three root prefixes (empty page; BT /F1 8 Tf; q cm g BT /F2 10 Tf 2 Tc) "
-        "with the operator instances of the alphabet (q Q cm x3, BT ET, Tc Tw Tz TL Ts Tf x2 values, Td TD Tm x2 T*, Tj x2 TJ ' \", g rg sc, ill-typed full-count g rg k sc, "
+        "with the operator instances of the alphabet (q Q cm x3, BT ET, Tc Tw Tz TL Ts Tf x2 values, Td TD x2 each (one a zero offset) Tm x3 (one the identity) T*, Tj x2 TJ ' \", g rg sc, ill-typed full-count g rg k sc, "
         "Do of a self-contained / a nested / an inheriting form XObject, 16 further ill-formed instances), only ISO-conformant orders "
         "(no q/Q/cm/Do inside BT..ET, show only after Tf); state = (canonical real interpreter state, model state), deduplicated; "
         "every transition re-executes the whole history on the real interpreter and compares every glyph (text, font, matrix, advance, box, "
         "size, fill colour, colour space); in every state at the depth bound every show operator (and Do+show) is fired separately; every history up to "
         "split2_depth is split into 2 content streams at every token boundary (white space kept left, right, or CR/LF on both sides; only the first variant beyond split3_depth) and up to split3_depth into every 3-stream division plus empty streams, and histories up to "
         "full_depth go through a complete PDF file. Width-table set 0 is explored in full, set 1 (names rebound to other tables) from the 'text' root to depth_wset1. "
+        "Family samename: two font dictionaries with the same BaseFont name but other Widths and another Encoding, bound to F1/F2 (both ways round); every "
+        "page of 1..same_single (Tf, Tj) items, and every two-page document of pages with 1..same_pair items x the 4 resource bindings, each document "
+        "processed by one resource manager, one device and one interpreter. "
         "A case = one executed program (key = program bytes + width set); non-trivial = the model reports at least one glyph. "
         "states = distinct (real,model) states summed over shards, transitions = operator applications executed on the real code, "
         "traces = complete programs compared with the model."
@@ -611,6 +621,77 @@ def search(root_name: str, wset: int, tier: str, st, prefix: Tuple = (), max_dep
     return res, ck
 
 
+# ------------------------------------------------------------------ family: two fonts with one name, one device
+SAME_RES = [{"F1": "S1", "F2": "S2"}, {"F1": "S2", "F2": "S1"}]
+SAME_ITEMS = [(f, t) for f in ("/F1", "/F2") for t in (b"A", b"CAB")]
+
+
+def same_page_programs(maxitems: int):
+    """BT, then 1..maxitems of (Tf Fi 8, Tj s), ET -- fonts alternate freely"""
+    for k in range(1, maxitems + 1):
+        for items in itertools.product(SAME_ITEMS, repeat=k):
+            evs = [("BT",)]
+            for f, t in items:
+                evs += [("Tf", f, 8), ("Tj", t)]
+            yield tuple(evs) + (("ET",),)
+
+
+def same_doc(pages) -> bytes:
+    """pages: list of (events, resource-variant index)"""
+    d = G.Doc()
+    fref = {k: d.add(font_dict(k, {})) for k in ("S1", "S2")}
+    return gfx.pages_doc([(gfx.program(evs), {"Font": {n: fref[k] for n, k in SAME_RES[r].items()}}) for evs, r in pages], doc=d)
+
+
+def same_check(pages, st):
+    data = same_doc(pages)
+    res = gfx.run_pages(data)
+    st.traces += 1
+    allexp, allobs, bad = [], [], []
+    for (evs, r), (lt, exc) in zip(pages, res):
+        m = TM()
+        m.res = {"fonts": SAME_RES[r], "xobjects": []}
+        for ev in evs:
+            m._do(ev)
+        exp = list(m.out)
+        obs = observe(lt) if exc is None else gfx.exc_sig(exc)
+        allexp.append(gfx.fl(exp))
+        allobs.append(obs)
+        b = diff(exp, obs) if exc is None else ["exception"]
+        bad += [x for x in b if x not in bad]
+    if len(res) != len(pages):
+        bad.append("pages")
+    st.case(None, nontrivial=True, outcome=h64(repr(allobs)))
+    if bad:
+        st.violation(
+            "C05/samename-fonts:" + ",".join(sorted(bad)),
+            {"family": "samename", "pages": [[list(evs), r] for evs, r in pages], "pdf": data if st.viol_counts["C05/samename-fonts:" + ",".join(sorted(bad))] < st.MAX_VIOL_PER_SIG else b""},
+            allexp, allobs, "two font dictionaries with one BaseFont name on one device: differs in " + ",".join(sorted(bad)),
+        )
+    return bad
+
+
+def same_shard(shard, tier, st):
+    b = BOUNDS[tier]
+    _, r1, r2 = shard
+    singles = list(same_page_programs(b["same_single"]))
+    pairs = list(same_page_programs(b["same_pair"]))
+    n = 0
+    if r2 is None:
+        for p in singles:
+            same_check([(p, r1)], st)
+            n += 1
+        st.sample({"family": "samename", "page": gfx.program(singles[-1]), "resources": SAME_RES[r1]})
+    else:
+        for p1 in pairs:
+            for p2 in pairs:
+                same_check([(p1, r1), (p2, r2)], st)
+                n += 1
+    st.states += n + 1
+    st.transitions += n
+    st.add("samename_documents", n)
+
+
 def depth_of(tier, root, wset):
     b = BOUNDS[tier]
     return b["depth"][root] if wset == 0 else b["depth_wset1"]
@@ -621,7 +702,7 @@ def shards(tier):
     from mc.core import Stats
 
     b = BOUNDS[tier]
-    out = []
+    out = [("same", r1, r2) for r1 in (0, 1) for r2 in (None, 0, 1)]
     for wset in b["wsets"]:
         for root in ROOTS:
             if wset != 0 and root != "text":
@@ -638,6 +719,9 @@ def shards(tier):
 def run_shard(shard, tier, st):
     b = BOUNDS[tier]
     kind, root, wset = shard[:3]
+    if kind == "same":
+        same_shard(shard, tier, st)
+        return
     if kind == "pre":
         sd = min(b["shard_depth"], depth_of(tier, root, wset))
         final = depth_of(tier, root, wset) <= sd
@@ -656,6 +740,12 @@ def run_shard(shard, tier, st):
 
 def replay(case):
     from mc.core import Stats
+
+    if case.get("family") == "samename":
+        st = Stats()
+        pages = [(tuple(gfx.ev_from_json(e) for e in evs), r) for evs, r in case["pages"]]
+        same_check(pages, st)
+        return [{"signature": v["signature"], "expected": repr(v["expected"]), "observed": repr(v["observed"])} for v in st.violations]
 
     events = tuple(gfx.ev_from_json(e) for e in case["events"])
     wset = case["wset"]
